@@ -42,7 +42,7 @@ CHECKS = {
               "defined type carrying @immutable in the package or a direct import, the field not @mutable, the enclosing declaration not a @constructor function of the type in the type's own "
               "package, and the diagnostic not suppressed (imm_reports, proved equivalent to the executable per-node check; the stateful walk proved equal to a per-node check under the declaration's "
               "context, so placement/nesting is irrelevant); index lookups proved to mean the annotations. The model is run against the real binary on every generated world (whole-module runs, "
-              "compared by file/line/code under two configurations). END TO END (C01_whole_analysis): in the result of the whole per-package analysis - annotation reader, @ignore reader, IgnoreSet, all five checkers - the diagnostics with a code of this checker are exactly the output characterised above, under the facts (own annotations, then those of the direct imports) and the suppression (the package's @ignore comments, exclude-checks) that the analysis assembles itself; the five code sets are disjoint."),
+              "compared by file/line/code under two configurations). END TO END (C01_whole_analysis): in the result of the whole per-package analysis - annotation reader, @ignore reader, IgnoreSet, all five checkers - the diagnostics with a code of this checker are exactly the output characterised above, under the facts (own annotations, then those of the direct imports) and the suppression (the package's @ignore comments, exclude-checks) that the analysis assembles itself; the five code sets are disjoint. The well-formedness hypothesis follows from the boolean x_wf_package evaluated on every serialised package (C01_wf_checked)."),
         note="Fragment: non-generic defined types, direct imports, one candidate per line; go/parser + go/types facts are inputs serialised verbatim by `ggx skel`; well-formedness (no FuncDecl nested in a declaration) evaluated by the model on every serialised package.",
         technique="Coq proof (walk = per-node relation from the property text) + model/implementation correspondence on generated multi-package programs"),
     "C02": dict(
@@ -55,9 +55,9 @@ CHECKS = {
     "C03": dict(
         text=("Theorems (Coq): per file the TONL diagnostics are nothing for *_test.go, else the candidates in walk order filtered by ignore-first-then-once-per-(package,type): reported iff "
               "unsuppressed and (no key, or the FIRST unsuppressed candidate of its key) — proved for every candidate list; only the root of a declaration can be pruned and the body of a "
-              "@testonly function/method yields nothing; the candidate nodes are characterised exactly (call of a function object that resolves to an annotated package-level function, pkg.F, method call through aliases and one pointer, composite literal / typed spec / field of an annotated type - C03_candidate_nodes), so a bare callee counts only if it resolves to the annotated function (name sharing never reported); the three indices "
+              "@testonly function/method yields nothing; the candidate nodes are characterised exactly (call of a function object that resolves to an annotated package-level function, pkg.F, method call judged by the receiver type of the selected method - also a promoted one - through aliases and one pointer, composite literal / typed spec / field of an annotated type - C03_candidate_nodes), so a bare callee counts only if it resolves to the annotated function (name sharing never reported); the three indices "
               "mean the annotations, same package and direct imports alike. Same correspondence as C01. END TO END (C03_whole_analysis): in the result of the whole per-package analysis - annotation reader, @ignore reader, IgnoreSet, all five checkers - the diagnostics with a code of this checker are exactly the output characterised above, under the facts (own annotations, then those of the direct imports) and the suppression (the package's @ignore comments, exclude-checks) that the analysis assembles itself; the five code sets are disjoint."),
-        note="Fragment: non-generic defined types, direct imports, one candidate per line; go/parser + go/types facts are inputs serialised verbatim by `ggx skel`; well-formedness (no FuncDecl nested in a declaration) evaluated by the model on every serialised package. The receiver field of a non-@testonly method on a @testonly type and promoted methods are left unspecified (DESIGN 5.1); dot-imported names are generated and compared.",
+        note="Fragment: non-generic defined types, direct imports, one candidate per line; go/parser + go/types facts are inputs serialised verbatim by `ggx skel`; well-formedness (no FuncDecl nested in a declaration) evaluated by the model on every serialised package. The receiver field of a non-@testonly method on a @testonly type is left unspecified (DESIGN 5.1); dot-imported names and promoted methods (fix aeb7f31) are generated and compared.",
         technique="Coq proof (first-unsuppressed-use characterisation of the dedup fold, pruning lemma) + model/implementation correspondence"),
     "C04": dict(
         text=("Theorems (Coq): the attachment list of an item is the union of all its @packageonly lists (own + direct-import facts); a reference is a candidate iff the item is declared in another "
@@ -72,7 +72,7 @@ CHECKS = {
               "methods are exactly those, in the interface's order (last-wins map = the unique method, names being unique); a correct annotation is silent; at most one code per annotation; the "
               "signature comparison is an equivalence that sees through aliases, compares basic types by kind, counts pointers, accepts an exact copy and needs equal arities. Method sets and "
               "interface completion are go/types inputs serialised verbatim. Tied to the code on generated interface/type pairs: binary = model by (file, line, column, code, message) and "
-              "binary = Go's own verdict (import scoping, scope lookup, NewMethodSet + Identical, cross-checked with types.Implements) including the names of the missing methods. END TO END (C05_whole_analysis): in the result of the whole per-package analysis - annotation reader, @ignore reader, IgnoreSet, all five checkers - the diagnostics with a code of this checker are exactly the output characterised above, under the facts (own annotations, then those of the direct imports) and the suppression (the package's @ignore comments, exclude-checks) that the analysis assembles itself; the five code sets are disjoint."),
+              "binary = Go's own verdict (import scoping, scope lookup, NewMethodSet + Identical, cross-checked with types.Implements) including the names of the missing methods. END TO END (C05_whole_analysis): in the result of the whole per-package analysis - annotation reader, @ignore reader, IgnoreSet, all five checkers - the diagnostics with a code of this checker are exactly the output characterised above, under the facts (own annotations, then those of the direct imports) and the suppression (the package's @ignore comments, exclude-checks) that the analysis assembles itself; the five code sets are disjoint. The input conditions of these theorems (method identities unique per method set, import names known) follow from the boolean x_impl_inputs_ok, evaluated on every serialised package (C05_inputs_checked)."),
         note="Fragment: non-generic types and interfaces; no @implements on an alias declaration. Methods are identified by (package of an unexported name, name) as Go does (fix 1e9bd0c). types.Identical is a library model - equality of normal forms (aliases removed at every depth, basic types by kind), proved to be exactly that (identical a b = true <-> norm a = norm b) - exercised against go/types on every generated pair.",
         technique="Coq proof (resolution, three-phase characterisation, signature-matching laws) + correspondence with the model and with Go's type checker as independent oracle"),
     "C06": dict(
@@ -95,7 +95,7 @@ CHECKS = {
               "except the configuration cell assigned once inside configOnce.Do. PARTIAL: freedom from data races is a fact about the Go memory model that no executable model exhibits; it is "
               "sampled by a -race build. Tied to the code by byte comparison of the normalised -json output (package, analyzer, position, full text) of repeated parallel runs, the sequential "
               "driver, permuted and reversed package lists, single-world runs, on DAG worlds, a hot module (16 packages x 60 annotated declarations analysed concurrently) and a package that "
-              "exists in two type-checked instances (test variants); and by the race detector."),
+              "exists in two type-checked instances (test variants); and by the race detector. PARSE ORDER (C11_suppression_is_file_local): the markers a file's @ignore comments give rise to lie inside that file's range of positions, ranges of different files are disjoint, hence the suppression decision at a position of file g is the decision under g's own comments and the project-wide exclusion - the other files, and the order in which the concurrently parsed files were given their ranges, do not occur in it (input conditions x_ranges_ok, x_pos_ok evaluated on every serialised package)."),
         note="The race detector samples schedules; the theorem covers logical non-interference (no action reads anything but its declared inputs).",
         technique="Coq proof (schedule independence by invariant; shared-state obligation on the regenerated inventory) + byte-level output comparison across schedules and a -race build"),
     "C07": dict(
